@@ -3,6 +3,9 @@
 #define HMACCPP_DEPRECATED(msg)
 #include "heapwatch.hpp"
 #include "drv_common.hpp"
+#include <sys/wait.h>
+#include <unistd.h>
+#include <csignal>
 #include "hmac_cpp/hmac.hpp"
 #include "hmac_cpp/hmac_utils.hpp"
 #include "hmac_cpp/encoding.hpp"
@@ -16,8 +19,35 @@ static long long g_now = 1700000000; static int g_errno = 0;
 extern "C" time_t time(time_t* t) { if (g_errno) errno = g_errno; if (t) *t = (time_t)g_now; return (time_t)g_now; }
 
 // ---------------------------------------------------------------- C16: histories on two secure_buffer variables
-template <bool LOCK> struct SbHist {
-    typedef secure_buffer<uint8_t, LOCK> SB;
+// element types wider than a byte: every input byte b becomes the element b * 0x0101..01 (all of its bytes are b), so a wipe or a copy that
+// covers only part of an element shows; contents are printed one byte per element after checking that all bytes of the element agree
+template <class T> static T widen(uint8_t b) { T r = 0; for (size_t i = 0; i < sizeof(T); ++i) r = (T)((r << 4 << 4) | b); return r; }
+template <class T> static std::vector<T> elems(const Bytes& b) { std::vector<T> r; r.reserve(b.size()); for (size_t i = 0; i < b.size(); ++i) r.push_back(widen<T>(b[i])); return r; }
+template <class T> static std::string show(const T* p, size_t n) {
+    Bytes low(n);
+    for (size_t i = 0; i < n; ++i) { low[i] = (uint8_t)(p[i] & 0xFF); if (p[i] != widen<T>(low[i])) return "ELEMENT-CORRUPT"; }
+    return hx(low);
+}
+// the rvalue-string operations exist for uint8_t buffers only
+template <class T, bool LOCK> struct StrOps { static bool apply(secure_buffer<T, LOCK>&, char, const Bytes&, long&) { throw std::logic_error("string op on a wide buffer"); } };
+template <bool LOCK> struct StrOps<uint8_t, LOCK> {
+    static bool apply(secure_buffer<uint8_t, LOCK>& dst, char c, const Bytes& d, long& dirty) {
+        typedef secure_buffer<uint8_t, LOCK> SB; bool ok = true;
+        std::string s = str_of(d);
+        const unsigned char* obj = reinterpret_cast<const unsigned char*>(&s);
+        const unsigned char* before = reinterpret_cast<const unsigned char*>(s.data());   // where the characters live (inside the object for short strings)
+        bool sso = before >= obj && before < obj + sizeof s;
+        hw::begin(0); if (c == 'S') dst = SB(std::move(s)); else dst.assign(std::move(s)); dirty += hw::end().dirty;
+        // the caller's string: reports empty, and the place its characters lived holds zeros (a heap block it no longer
+        // owns was seen by the allocator interposer when it was released)
+        if (!s.empty()) ok = false;
+        const unsigned char* after = reinterpret_cast<const unsigned char*>(s.data());
+        if (sso || after == before) for (size_t i = 0; i < d.size(); ++i) if (before[i] != 0) ok = false;
+        return ok;
+    }
+};
+template <class T, bool LOCK> struct SbHist {
+    typedef secure_buffer<T, LOCK> SB;
     static std::string run(const std::vector<std::string>& ops) {
         SB* v[2]; v[0] = new SB(); v[1] = new SB();
         std::string trace; long dirty = 0; bool strings_ok = true;
@@ -25,34 +55,23 @@ template <bool LOCK> struct SbHist {
             std::vector<std::string> f = split(ops[k], ':');
             char c = f[0][0]; int x = f[1] == "A" ? 0 : 1; int y = 1 - x;
             if (c == 'N') { size_t n = (size_t)atol(f[2].c_str()); hw::begin(0); *v[x] = SB(n); dirty += hw::end().dirty; }
-            else if (c == 'V') {   // adopt a vector holding data, with the given slack bytes beyond its size
+            else if (c == 'V') {   // adopt a vector holding data, with the given slack elements beyond its size
                 Bytes d = bx(f[2]), sl = f.size() > 3 ? bx(f[3]) : Bytes(); Bytes all = d; all.insert(all.end(), sl.begin(), sl.end());
-                std::vector<uint8_t> vec; vec.reserve(all.size()); vec.assign(all.begin(), all.end()); vec.resize(d.size());
+                std::vector<T> src = elems<T>(all); std::vector<T> vec; vec.reserve(src.size()); vec.assign(src.begin(), src.end()); vec.resize(d.size());
                 hw::begin(0); *v[x] = SB(std::move(vec)); dirty += hw::end().dirty;
             }
-            else if (c == 'S' || c == 'T') {
-                Bytes d = bx(f[2]); std::string s = str_of(d);
-                const unsigned char* obj = reinterpret_cast<const unsigned char*>(&s);
-                const unsigned char* before = reinterpret_cast<const unsigned char*>(s.data());   // where the characters live (inside the object for short strings)
-                bool sso = before >= obj && before < obj + sizeof s;
-                hw::begin(0); if (c == 'S') *v[x] = SB(std::move(s)); else v[x]->assign(std::move(s)); dirty += hw::end().dirty;
-                // the caller's string: reports empty, and the place its characters lived holds zeros (a heap block it no longer
-                // owns was seen by the allocator interposer when it was released)
-                if (!s.empty()) strings_ok = false;
-                const unsigned char* after = reinterpret_cast<const unsigned char*>(s.data());
-                if (sso || after == before) for (size_t i = 0; i < d.size(); ++i) if (before[i] != 0) strings_ok = false;
-            }
+            else if (c == 'S' || c == 'T') { if (!StrOps<T, LOCK>::apply(*v[x], c, bx(f[2]), dirty)) strings_ok = false; }
             else if (c == 'C') { hw::begin(0); *v[x] = *v[y]; dirty += hw::end().dirty; }
             else if (c == 'M') { hw::begin(0); *v[x] = std::move(*v[y]); dirty += hw::end().dirty; }
             else if (c == 'K') { hw::begin(0); { SB tmp(*v[y]); *v[x] = std::move(tmp); } dirty += hw::end().dirty; }
             else if (c == 'Y') { hw::begin(0); SB& r = *v[x]; *v[x] = r; *v[x] = std::move(r); dirty += hw::end().dirty; }
             else if (c == 'R') { size_t n = (size_t)atol(f[2].c_str()); hw::begin(0); v[x]->resize(n); dirty += hw::end().dirty; }
             else if (c == 'L') { hw::begin(0); v[x]->clear(); dirty += hw::end().dirty; }
-            else if (c == 'P') { Bytes d = bx(f[2]); hw::begin(0); v[x]->assign(d.data(), d.size()); dirty += hw::end().dirty; }
-            else if (c == 'W') { size_t i = (size_t)atol(f[2].c_str()); if (i < v[x]->size()) (*v[x])[i] = (uint8_t)atoi(f[3].c_str()); }
+            else if (c == 'P') { std::vector<T> d = elems<T>(bx(f[2])); hw::begin(0); v[x]->assign(d.data(), d.size()); dirty += hw::end().dirty; }
+            else if (c == 'W') { size_t i = (size_t)atol(f[2].c_str()); if (i < v[x]->size()) (*v[x])[i] = widen<T>((uint8_t)atoi(f[3].c_str())); }
             else throw std::logic_error("sbhist op");
             if (k) trace += "|";
-            trace += "A=" + hx(v[0]->data(), v[0]->size()) + ";B=" + hx(v[1]->data(), v[1]->size());
+            trace += "A=" + show<T>(v[0]->data(), v[0]->size()) + ";B=" + show<T>(v[1]->data(), v[1]->size());
         }
         hw::begin(0); delete v[0]; delete v[1]; dirty += hw::end().dirty;
         return trace + " frees=" + (dirty ? "dirty" : "clean") + " strings=" + (strings_ok ? "zeroed" : "dirty");
@@ -154,6 +173,7 @@ static std::string heap_call(const std::vector<std::string>& a_in) {
     hw::begin(1);
     try {
         if (f == "hmac") r1 = get_hmac(A2.data(), A2.size(), A3.data(), A3.size(), th(a[2]));
+        else if (f == "hmac_ovf") { uint8_t dummy = 0; r1 = get_hmac(A2.data(), A2.size(), &dummy, SIZE_MAX, th(a[2])); }
         else if (f == "hmac_securekey") rs = get_hmac(S2, str3, th(a[2]), false, false);
         else if (f == "hmac_veckey") rs = get_hmac(A2, str3, th(a[2]), true, false);
         else if (f == "hmacctx") { HmacContext c(th(a[2])); c.init(A2.data(), A2.size()); c.update(A3.data(), A3.size() / 2); c.update(A3.data() + A3.size() / 2, A3.size() - A3.size() / 2);
@@ -227,7 +247,11 @@ static std::string oom_sweep(const Reset& reset, const Call& call, const StateOk
         else { ++other; if (!prob[0]) snprintf(prob, sizeof prob, "k=%ld outcome=%s", k, outcome.c_str()); }
         bool succeeded = outcome == "ok";
         { std::string().swap(outcome); }
-        if (stateless) { std::string().swap(state); if (hw::g_live != base) { ++leaks; if (!prob[0]) snprintf(prob, sizeof prob, "leak k=%ld blocks=%ld", k, hw::g_live - base); } }
+        if (stateless) { std::string().swap(state); if (hw::g_live != base) { ++leaks; if (!prob[0]) snprintf(prob, sizeof prob, "leak k=%ld blocks=%ld", k, hw::g_live - base); }
+            // the very next call (same arguments, no fault) must give the reference result: nothing of the failed call may be carried over
+            if (!succeeded) { hw::begin(1, -1); OomResult nxt = call(); hw::end();
+                if (nxt.outcome != ref_outcome || nxt.state != ref_state) { ++wrong_state; if (!prob[0]) snprintf(prob, sizeof prob, "wrong-result-right-after-failure k=%ld", k); }
+                std::string().swap(nxt.outcome); std::string().swap(nxt.state); } }
         else if (!succeeded && !state_ok(state)) { ++wrong_state; if (!prob[0]) snprintf(prob, sizeof prob, "state k=%ld %.90s", k, state.c_str()); }
     }
     std::string again_outcome, again_state;
@@ -252,29 +276,36 @@ static std::string oom_call(const std::vector<std::string>& a) {
     Bytes A2 = a.size() > 3 ? bx(a[3]) : Bytes(), A3 = a.size() > 4 ? bx(a[4]) : Bytes(), A4 = a.size() > 5 ? bx(a[5]) : Bytes();
     std::string s2 = str_of(A2), s3 = str_of(A3);
     auto none = []() {}; auto any = [](const std::string&) { return true; };
+    // before the reference run and before every faulty run the same API is called once with DIFFERENT arguments (a cache or scratch area keyed
+    // or sized by the previous call must not leak into the next one)
+    Bytes B2 = A2, B3 = A3; for (size_t i = 0; i < B2.size(); ++i) B2[i] ^= 0x5A; for (size_t i = 0; i < B3.size(); ++i) B3[i] ^= 0xA5; B3.push_back(0x44);
+    std::string t2 = str_of(B2), t3 = str_of(B3);
+#define SWEEP(EXPR) { auto call = [&]() { return guard_call([&]() { return EXPR; }); }; \
+                      auto prime = [&]() { A2.swap(B2); A3.swap(B3); s2.swap(t2); s3.swap(t3); (void)call(); A2.swap(B2); A3.swap(B3); s2.swap(t2); s3.swap(t3); }; \
+                      return oom_sweep(prime, call, any); }
     // ---- stateless throwing APIs: result bytes are the state (must equal the reference when the call succeeds) ----
-    if (f == "gethash") return oom_sweep(none, [&]() { return guard_call([&]() { return hx(get_hash(A2.data(), A2.size(), th(a[2]))); }); }, any);
-    if (f == "hashstr") return oom_sweep(none, [&]() { return guard_call([&]() { return th(a[2]) == TypeHash::SHA1 ? hmac_hash::sha1(s2) : th(a[2]) == TypeHash::SHA256 ? hmac_hash::sha256(s2) : hmac_hash::sha512(s2); }); }, any);
-    if (f == "hmac") return oom_sweep(none, [&]() { return guard_call([&]() { return hx(get_hmac(A2.data(), A2.size(), A3.data(), A3.size(), th(a[2]))); }); }, any);
-    if (f == "hmacstr") return oom_sweep(none, [&]() { return guard_call([&]() { return get_hmac(A2, s3, th(a[2]), true, false); }); }, any);
+    if (f == "gethash") SWEEP((hx(get_hash(A2.data(), A2.size(), th(a[2])))))
+    if (f == "hashstr") SWEEP((th(a[2]) == TypeHash::SHA1 ? hmac_hash::sha1(s2) : th(a[2]) == TypeHash::SHA256 ? hmac_hash::sha256(s2) : hmac_hash::sha512(s2)))
+    if (f == "hmac") SWEEP((hx(get_hmac(A2.data(), A2.size(), A3.data(), A3.size(), th(a[2])))))
+    if (f == "hmacstr") SWEEP((get_hmac(A2, s3, th(a[2]), true, false)))
     if (f == "hmacctx") return oom_sweep(none, [&]() { return guard_call([&]() { HmacContext c(th(a[2])); c.init(A2.data(), A2.size()); c.update(A3.data(), A3.size()); uint8_t o[64]; c.final(o, 64); return hx(o, 20); }); }, any);
-    if (f == "pbkdf2") return oom_sweep(none, [&]() { return guard_call([&]() { return hx(pbkdf2(A2.data(), A2.size(), A3.data(), A3.size(), (uint32_t)atol(a[5].c_str()), (size_t)atol(a[6].c_str()), ph(a[2]))); }); }, any);
+    if (f == "pbkdf2") SWEEP((hx(pbkdf2(A2.data(), A2.size(), A3.data(), A3.size(), (uint32_t)atol(a[5].c_str()), (size_t)atol(a[6].c_str()), ph(a[2])))))
     if (f == "pbkdf2_secure") return oom_sweep(none, [&]() { return guard_call([&]() { auto r = pbkdf2_secure(A2.data(), A2.size(), A3.data(), A3.size(), (uint32_t)atol(a[5].c_str()), (size_t)atol(a[6].c_str()), ph(a[2])); return hx(r.data(), r.size()); }); }, any);
-    if (f == "pepper") return oom_sweep(none, [&]() { return guard_call([&]() { return hx(pbkdf2_with_pepper(A2.data(), A2.size(), A3.data(), A3.size(), A4.data(), A4.size(), 2, 40, ph(a[2]))); }); }, any);
-    if (f == "hkdfx") return oom_sweep(none, [&]() { return guard_call([&]() { return hx(hkdf_extract_sha256(A2.data(), A2.size(), A3.data(), A3.size())); }); }, any);
-    if (f == "hkdfe") return oom_sweep(none, [&]() { return guard_call([&]() { return hx(hkdf_expand_sha256(A2.data(), A2.size(), A3.data(), A3.size(), (size_t)atol(a[5].c_str()))); }); }, any);
+    if (f == "pepper") SWEEP((hx(pbkdf2_with_pepper(A2.data(), A2.size(), A3.data(), A3.size(), A4.data(), A4.size(), 2, 40, ph(a[2])))))
+    if (f == "hkdfx") SWEEP((hx(hkdf_extract_sha256(A2.data(), A2.size(), A3.data(), A3.size()))))
+    if (f == "hkdfe") SWEEP((hx(hkdf_expand_sha256(A2.data(), A2.size(), A3.data(), A3.size(), (size_t)atol(a[5].c_str())))))
     if (f == "hkdfkiv") return oom_sweep(none, [&]() { return guard_call([&]() { KeyIv r = hkdf_key_iv_256(A2.data(), A2.size(), A3.data(), A3.size(), std::string("ctx")); return hx(r.key.data(), 32); }); }, any);
-    if (f == "hotp") return oom_sweep(none, [&]() { return guard_call([&]() { return std::to_string(get_hotp_code(A2.data(), A2.size(), 77, 6, th(a[2]))); }); }, any);
-    if (f == "totpvalid") return oom_sweep(none, [&]() { return guard_call([&]() { return std::string(bool_s(is_totp_token_valid(1, A2.data(), A2.size(), (uint64_t)59, 30, 6, th(a[2])))); }); }, any);
-    if (f == "tokgen") return oom_sweep(none, [&]() { return guard_call([&]() { return generate_time_token(A2, 60, th(a[2])); }); }, any);
-    if (f == "tokgenfp") return oom_sweep(none, [&]() { return guard_call([&]() { return generate_time_token(A2, std::string("fingerprint-0123456789"), 60, th(a[2])); }); }, any);
-    if (f == "tokval") return oom_sweep(none, [&]() { return guard_call([&]() { return std::string(bool_s(is_token_valid(s3, A2, 60, th(a[2])))); }); }, any);
-    if (f == "tokvalfp") return oom_sweep(none, [&]() { return guard_call([&]() { return std::string(bool_s(is_token_valid(s3, A2, std::string("fingerprint-0123456789"), 60, th(a[2])))); }); }, any);
-    if (f == "tokgen_secure") { secure_buffer<uint8_t> sk = sbuf(A2); return oom_sweep(none, [&]() { return guard_call([&]() { return generate_time_token(sk, 60, th(a[2])); }); }, any); }
-    if (f == "b64enc") return oom_sweep(none, [&]() { return guard_call([&]() { return base64_encode(A2); }); }, any);
-    if (f == "b32enc") return oom_sweep(none, [&]() { return guard_call([&]() { return base32_encode(A2); }); }, any);
-    if (f == "b36enc") return oom_sweep(none, [&]() { return guard_call([&]() { return base36_encode(A2); }); }, any);
-    if (f == "tohex") return oom_sweep(none, [&]() { return guard_call([&]() { return to_hex(s2, false); }); }, any);
+    if (f == "hotp") SWEEP((std::to_string(get_hotp_code(A2.data(), A2.size(), 77, 6, th(a[2])))))
+    if (f == "totpvalid") SWEEP((std::string(bool_s(is_totp_token_valid(1, A2.data(), A2.size(), (uint64_t)59, 30, 6, th(a[2]))))))
+    if (f == "tokgen") SWEEP((generate_time_token(A2, 60, th(a[2]))))
+    if (f == "tokgenfp") SWEEP((generate_time_token(A2, std::string("fingerprint-0123456789"), 60, th(a[2]))))
+    if (f == "tokval") SWEEP((std::string(bool_s(is_token_valid(s3, A2, 60, th(a[2]))))))
+    if (f == "tokvalfp") SWEEP((std::string(bool_s(is_token_valid(s3, A2, std::string("fingerprint-0123456789"), 60, th(a[2]))))))
+    if (f == "tokgen_secure") { secure_buffer<uint8_t> sk = sbuf(A2); SWEEP((generate_time_token(sk, 60, th(a[2])))) }
+    if (f == "b64enc") SWEEP((base64_encode(A2)))
+    if (f == "b32enc") SWEEP((base32_encode(A2)))
+    if (f == "b36enc") SWEEP((base36_encode(A2)))
+    if (f == "tohex") SWEEP((to_hex(s2, false)))
     // ---- secure_buffer: after a failed operation the buffer holds its old contents, zeros of its old size, or is empty ----
     if (f.compare(0, 3, "sb_") == 0) {
         secure_buffer<uint8_t> other = sbuf(A3); std::string res; res.reserve(400); std::string olds = hx(A2), zeros = hx(Bytes(A2.size(), 0)), news = hx(A3);
@@ -290,6 +321,25 @@ static std::string oom_call(const std::vector<std::string>& a) {
         else if (f == "sb_string") res = oom_sweep(reset, [&]() { OomResult r = guard_call([&]() { std::string s = s3; *x = secure_buffer<uint8_t>(std::move(s)); return std::string(); }); hw::g_fail_at = -1; r.state = st(); return r; }, ok_state, false);
         else res = "HARNESS-unknown-sb-op";
         delete x; if (hw::g_live != live_before) res += " PROBLEM leak-after-destruction blocks=" + std::to_string(hw::g_live - live_before); return res;
+    }
+    // ---- first secret_string operation of a FRESH process (the process-wide key does not exist yet) with its k-th allocation failing: the
+    //      operation exits with bad_alloc and the library stays usable (a later operation neither hangs nor misbehaves). One child per k.
+    if (f == "ss_firstuse") {
+        std::string prob; long done = 0;
+        for (long k = 0; k < 64 && prob.empty(); ++k) {
+            int fd[2]; if (pipe(fd)) return "HARNESS-pipe"; fflush(stdout);
+            pid_t pid = fork();
+            if (pid == 0) {
+                close(fd[0]); char kb[32]; snprintf(kb, sizeof kb, "%ld", k); char fdb[16]; snprintf(fdb, sizeof fdb, "%d", fd[1]);
+                execl("/proc/self/exe", "drv_heap", "--firstuse", kb, a[3].c_str(), fdb, (char*)0); _exit(127);
+            }
+            close(fd[1]); std::string out; char buf[128]; ssize_t n; while ((n = read(fd[0], buf, sizeof buf)) > 0) out.append(buf, (size_t)n); close(fd[0]);
+            int stt = 0; waitpid(pid, &stt, 0); ++done;
+            if (WIFSIGNALED(stt)) prob = std::string(WTERMSIG(stt) == SIGALRM ? "hang" : "crash") + "-after-failure k=" + std::to_string(k);
+            else if (out == "no-fault") break;                      // k is beyond the number of allocations of the operation
+            else if (out != "bad_alloc-then-usable") prob = "k=" + std::to_string(k) + " " + out;
+        }
+        return prob.empty() ? "ref=ok every-failure=bad_alloc no-leak state-ok usable" : "ref=ok PROBLEM first-use " + prob + " (children=" + std::to_string(done) + ")";
     }
     // ---- secret_string: afterwards it reveals exactly its previous or its new bytes, or reports an integrity error ----
     if (f.compare(0, 3, "ss_") == 0) {
@@ -307,6 +357,8 @@ static std::string oom_call(const std::vector<std::string>& a) {
         else if (f == "ss_rotate" || f == "ss_rotate_revealed") res = oom_sweep(reset, [&]() { OomResult r = guard_call([&]() { x->rotate_nonce(); return std::string(); }); hw::g_watch = false; hw::g_fail_at = -1; r.state = st(); return r; }, ok_state, false);
         else if (f == "ss_rotate_twice") res = oom_sweep(reset, [&]() { OomResult r = guard_call([&]() { x->rotate_nonce(); return std::string(); }); hw::g_watch = false;
                                                                       if (r.outcome != "ok") { try { x->rotate_nonce(); } catch (...) {} } hw::g_fail_at = -1; r.state = st(); return r; }, ok_state, false);
+        else if (f == "ss_rotate_move_rotate") res = oom_sweep(reset, [&]() { OomResult r = guard_call([&]() { x->rotate_nonce(); return std::string(); }); hw::g_watch = false;
+                                                                      if (r.outcome != "ok") { secret_string y(std::move(*x)); *x = std::move(y); try { x->rotate_nonce(); } catch (...) {} } hw::g_fail_at = -1; r.state = st(); return r; }, ok_state, false);
         else if (f == "ss_reveal") res = oom_sweep(reset, [&]() { OomResult r = guard_call([&]() { return x->reveal_copy(); }); hw::g_watch = false; hw::g_fail_at = -1; r.state = st(); return r; }, ok_state, false);
         else if (f == "ss_movein") res = oom_sweep(reset, [&]() { OomResult r = guard_call([&]() { *x = secret_string(A3.data(), A3.size()); return std::string(); }); hw::g_watch = false; hw::g_fail_at = -1; r.state = st(); return r; }, ok_state, false);
         else res = "HARNESS-unknown-ss-op";
@@ -323,12 +375,38 @@ static std::string run1(const std::vector<std::string>& a) {
     if (op == "oom") return oom_call(a);
     if (op == "heap") return heap_call(a);
     if (op == "sshist") return sshist(std::vector<std::string>(a.begin() + 1, a.end()));
-    if (op == "sbhist") { std::vector<std::string> ops(a.begin() + 2, a.end()); return a[1] == "1" ? SbHist<true>::run(ops) : SbHist<false>::run(ops); }
+    if (op == "sbhist") {   // sbhist <variant> ops...: variant 0/1 = uint8_t buffers (page locking off/on), w0/w1 = uint32_t, x0/x1 = uint64_t
+        std::vector<std::string> ops(a.begin() + 2, a.end()); const std::string& v = a[1];
+        if (v == "1") return SbHist<uint8_t, true>::run(ops); if (v == "0") return SbHist<uint8_t, false>::run(ops);
+        if (v == "w1") return SbHist<uint32_t, true>::run(ops); if (v == "w0") return SbHist<uint32_t, false>::run(ops);
+        if (v == "x1") return SbHist<uint64_t, true>::run(ops); if (v == "x0") return SbHist<uint64_t, false>::run(ops);
+        throw std::logic_error("sbhist variant");
+    }
     throw std::logic_error("unknown op " + op);
+}
+
+// child of `oom ss_firstuse`: a fresh process whose first secret_string operation has its k-th allocation fail
+static int firstuse_child(long k, const std::string& plainhex, int fd) {
+    alarm(10);                                   // a later operation that never returns is a hang
+    Bytes p = bx(plainhex); std::string res;
+    hw::begin(1, k);
+    bool failed = false, other = false;
+    try { secret_string x(p.data(), p.size()); (void)x.reveal_copy(); } catch (const std::bad_alloc&) { failed = true; } catch (...) { other = true; }
+    hw::Report rep = hw::end();
+    if (other) res = "other-exception";
+    else if (!failed) res = "no-fault";
+    else {
+        try { secret_string y(p.data(), p.size()); std::string r = y.reveal_copy(); y.rotate_nonce(); std::string r2 = y.reveal_copy();
+              res = (r == str_of(p) && r2 == r) ? "bad_alloc-then-usable" : "wrong-bytes-after-failure"; }
+        catch (const std::exception& e) { res = std::string("exception-after-failure:") + e.what(); }
+        if (rep.live_delta != 0 && res == "bad_alloc-then-usable") { /* the process-wide key may legitimately stay allocated */ }
+    }
+    (void)!write(fd, res.c_str(), res.size()); return 0;
 }
 
 int main(int argc, char** argv) {
     if (argc < 2) return 2;
+    if (std::string(argv[1]) == "--firstuse" && argc >= 5) return firstuse_child(atol(argv[2]), argv[3], atoi(argv[4]));
     if (std::string(argv[1]) == "--platform") { printf("size_t=%zu time_t=%zu int=%zu max_pbkdf2_iterations=%u\n", sizeof(size_t), sizeof(time_t), sizeof(int), (unsigned)MAX_PBKDF2_ITERATIONS); return 0; }
     std::ifstream in(argv[1]); std::string line;
     while (std::getline(in, line)) {
